@@ -119,15 +119,14 @@ def run(ctx: Ctx):
     mi = cgc.methods["missing_index"]
     tc = [c for c in ast.walk(mi.node) if isinstance(c, ast.Call) and norm(c.func) == "self.template.missing_index"]
     ctx.check(bool(tc) and norm(call_kw(tc[0], "data")) == "self._missing_variables", "R13.b", mi.key("table"), "missing_index publishes the same table", "CodeGenerator.missing_index does not publish self._missing_variables", mi.where())
-    T = tm.TemplateModel(sm)
+    from sa import av as _av
+
     for short in ("templates/python.py", "templates/jax.py"):
-        sk = T.skeleton(short, "method")
-        p1, p2, p3 = sk.raw.find("{indent_parameters}"), sk.raw.find("{indent_missing_variables}"), sk.raw.find("{indent_values}")
-        ctx.check(0 <= p1 < p2 < p3, "R13.b", sk.func.key("splice"), "missing-variable block sits between the parameters and the body", f"{short} method template: the missing-variables block is not spliced before the body", sk.func.where())
-        # the spliced placeholder derives from the template's `missing_variables` parameter
-        ph = [n for n in ast.walk(sk.func.node) if isinstance(n, ast.FormattedValue) and norm(n.value) == "indent_missing_variables"]
-        okb = bool(ph) and util.depends_on(sk.func.node, ph[0].value, "missing_variables")
-        ctx.check(okb, "R13.b", sk.func.key("block"), "the block is the `missing_variables` argument", f"{short} method template: the spliced block does not derive from the `missing_variables` argument", sk.func.where())
+        sk = util.skeleton(ctx, "R13.b", short, "method", {"nan_to_num": _av.C(False)} if short.endswith("python.py") else None)
+        if sk is None:
+            continue
+        p1, p2, p3 = sk.raw.find("{parameters}"), sk.raw.find("{missing_variables}"), sk.raw.find("{values}")
+        ctx.check(0 <= p1 < p2 < p3, "R13.b", sk.func.key("splice"), "missing-variable block sits between the parameters and the body", f"{short} method template: the `missing_variables` argument is not spliced between the parameter unpacking and the body", sk.func.where())
 
     ctx.rule("R13.c", "missing_values: every requested name among states, parameters and all assignments is stored at its requested slot; the counter advances exactly on stores; the early exit follows the store", floor=6)
     missing_values_discipline(ctx, "R13.c")
